@@ -289,7 +289,7 @@ fn ladder_cases() -> Vec<(String, usize, bool)> {
 // practically never contains.
 
 fn family_names() -> &'static [&'static str] {
-    &["cyclic-definitions", "numeric-boundaries"]
+    &["cyclic-definitions", "numeric-boundaries", "pronouns-in-every-position"]
 }
 
 fn family_texts(name: &str) -> Vec<String> {
@@ -372,6 +372,41 @@ fn family_texts(name: &str) -> Vec<String> {
                     "#stage(macro)\nfn m(){ `(N) }\n#stage(main)\nfn dsp(){\n  m!()\n}\n",
                 ] {
                     v.push(t.replace('N', n));
+                }
+            }
+        }
+        "pronouns-in-every-position" => {
+            // the words that the desugaring passes rewrite before type checking (`self`, `_`, `now`,
+            // `samplerate`) and a few atoms, in every operand position of every statement / expression
+            // form: each pass must either rewrite the position or leave something the next one accepts
+            let atoms = ["self", "_", "now", "samplerate", "self.x", "_.x", "self.0", "_.0", "self[0]", "_[0]", "self()", "_()", "(self, _)", "{a = self}", "{a = _}", "x"];
+            let frames = [
+                "fn f(x){\n  A = 1.0\n  x\n}\nfn dsp(){ f(1.0) }\n",
+                "fn f(x){\n  x = A\n  x\n}\nfn dsp(){ f(1.0) }\n",
+                "fn f(x){\n  A = A\n  x\n}\nfn dsp(){ f(1.0) }\n",
+                "fn f(x){\n  let A = x\n  x\n}\nfn dsp(){ f(1.0) }\n",
+                "fn f(x){\n  let (A, y) = (x, x)\n  y\n}\nfn dsp(){ f(1.0) }\n",
+                "fn f(x){\n  A\n}\nfn dsp(){ f(1.0) }\n",
+                "fn f(x){\n  A(x)\n}\nfn dsp(){ f(1.0) }\n",
+                "fn f(x){\n  x |> A\n}\nfn dsp(){ f(1.0) }\n",
+                "fn f(x){\n  A |> f\n}\nfn dsp(){ f(1.0) }\n",
+                "fn f(x){\n  if (A) { x } else { A }\n}\nfn dsp(){ f(1.0) }\n",
+                "fn f(x){\n  |y| A\n}\nfn dsp(){ f(1.0)(1.0) }\n",
+                "fn f(x){\n  |A| x\n}\nfn dsp(){ f(1.0)(1.0) }\n",
+                "fn f(A){\n  1.0\n}\nfn dsp(){ f(1.0) }\n",
+                "fn f(x){\n  let r = {a = 1.0, b = 2.0}\n  r.a = A\n  x\n}\nfn dsp(){ f(1.0) }\n",
+                "fn f(x){\n  let r = {a = 1.0, b = 2.0}\n  {r <- a = A}.a\n}\nfn dsp(){ f(1.0) }\n",
+                "fn f(x){\n  delay(A, x, A)\n}\nfn dsp(){ f(1.0) }\n",
+                "fn f(x){\n  mem(A) + A@1.0\n}\nfn dsp(){ f(1.0) }\n",
+                "type T = P | Q(float)\nfn f(x){\n  match A { P => 1.0, Q(v) => v }\n}\nfn dsp(){ f(1.0) }\n",
+                "type T = P | Q(float)\nfn f(x){\n  match Q(x) { P => A, Q(A) => 1.0 }\n}\nfn dsp(){ f(1.0) }\n",
+                "let A = 1.0\nfn dsp(){ 1.0 }\n",
+                "A = 1.0\nfn dsp(){ 1.0 }\n",
+                "#stage(macro)\nfn m(c){ `{ A = $c\n 1.0 } }\n#stage(main)\nfn dsp(){ m!(`A) }\n",
+            ];
+            for fr in frames {
+                for a in atoms {
+                    v.push(fr.replace('A', a));
                 }
             }
         }
